@@ -186,6 +186,12 @@ func (l *linker) value(v *ast.Value, t *ast.Type, ctx, where string) {
 	}
 	l.ok("Value.ExpectedType("+ctx+")", valKind(v))
 	want := l.s.Types[t.Name()]
+	if want == nil {
+		// the declared type of a position in a loaded schema (or of a variable that passed validation) names a type of
+		// that schema: a link to "no definition" is not a link
+		l.bad("Value.Definition("+ctx+")", "declared-type-not-in-schema", fmt.Sprintf("%s: the position is declared as %q", where, t.Name()), "a type of the schema")
+		return
+	}
 	if v.Definition != want {
 		kind := "wrong-target"
 		if v.Definition == nil {
